@@ -1,6 +1,6 @@
 """Confirm a seeded change in a scratch worktree and file it under /verif/seeded/<id>/.
 
-usage: seed_confirm.py /tmp/seeded/C05-a [--no-suite]
+usage: seed_confirm.py /tmp/seeded/C05-a [--no-suite] [--no-checks]
 
 Steps (all in a fresh `git worktree` of /repo under /tmp, removed afterwards):
   1. demo on the clean tree must exit 0
@@ -66,7 +66,7 @@ def main():
         # run all registered quick checks against the patched tree
         man = json.loads((VERIF / "MANIFEST.json").read_text())
         det = {}
-        for chk in man["checks"]:
+        for chk in ([] if "--no-checks" in sys.argv else man["checks"]):
             pid = chk["property_id"]
             rc, out = sh(f"/venv/bin/python -m sa.run {pid} --tier quick --repo {wt} --no-evidence", cwd=str(VERIF))
             lines = [l for l in out.splitlines() if l.startswith(("FINDING", "ANALYSIS-ERROR"))]
